@@ -323,6 +323,8 @@ const prelude = `(set-option :smt.mbqi true)
 (declare-fun bv_shr (Int Int) Int)
 (declare-fun bv_andnot (Int Int) Int)
 (declare-fun bytes_str (Slice) String)
+(assert (forall ((s Slice)) (! (=> (>= (slen s) 0) (= (str.len (bytes_str s)) (slen s))) :pattern ((bytes_str s)))))
+(declare-fun arr_str ((Array Int Int)) String)
 (declare-fun str_byte (String Int) Int)
 (declare-fun rune_str (Int) String)
 (define-fun go_div ((a Int) (b Int)) Int (ite (>= a 0) (ite (> b 0) (div a b) (- (div a (- b)))) (ite (> b 0) (- (div (- a) b)) (div (- a) (- b)))))
